@@ -31,7 +31,7 @@ checks = {
          "Persisted terms and reply/status terms never decrease per node id across crash-fork restarts; at most one candidate per (node, term) over all SetState calls and granted replies; grants only to up-to-date logs; prevote handlers cause no SetState; granted vote is on disk before the reply exists; reopened state equals last completed write.",
          "same as C01", "5/C08"),
  "C10": ("exploration", "snapshot content decoded at Close and compared with the canonical history; replica state compared after every Apply/Restore",
-         "Fault-injected cluster runs with snapshots on (threshold 4-30, payloads 0 B to 3.5 chunks, slow Snapshot/Apply/Restore profiles): label = content for every locally taken snapshot, replica state = canonical prefix after every Apply, Restore bytes = a completed snapshot with matching label and canonical content.",
+         "Fault-injected cluster runs with snapshots on (threshold 4-30, payloads 0 B to 3.5 chunks, slow Snapshot/Apply/Restore profiles): label = content for every locally taken snapshot, replica state = canonical prefix after every Apply, Restore bytes = a completed snapshot with matching label and canonical content; directed cases with requests overlapping an installation that waits for a local snapshot.",
          "the monitor state machine is an append-only hash chain, so a state names exactly one prefix of one history", "5/C10"),
  "C11": ("exploration", "puppet sweep of InstallSnapshot sequences with boundary probes; snapshot/compaction monitors on storage wrappers",
          "Seed-determined InstallSnapshot request sequences (two source snapshots, 1-3 chunks, any order/duplication/offset, stale/higher terms, crash+restart) against a real node; oracles: installed bytes+label equal a source the sender had, applied/commit never decrease, no restore below applied, no committed entry beyond the label discarded, compaction/discard read-back, replication and vote probes answered as a node with the full log would; directed cases with requests overlapping an installation that waits for an application in flight.",
